@@ -303,6 +303,34 @@ def run(loader, R, tier):
     if not ok_ret:
         R.violation("R19.5", "save:early-return", prog.loc(sf),
                     "save_rcp_basic has no early return under !first_seen")
+    # address identity: an address written to the archive identifies an
+    # object only while that object is alive.  Serialised objects may be
+    # temporaries (Complex::real_part(), Rational::get_num()), so the saver
+    # must pin *every* first-seen object for the archive's lifetime: the
+    # keep-alive push must be a top-level statement of save_rcp_basic (on
+    # every path past the early return), not under a condition.
+    top_push = [st for st in sf["body"].get("s", [])
+                if st.get("k") == "expr" and any(
+                    n.get("k") == "mcall"
+                    and n.get("n") in ("push_back", "emplace_back", "insert")
+                    and "keep" in ((n.get("o") or {}).get("m") or "")
+                    for n in walk(st))]
+    any_push = [n for n in walk(sf["body"]) if n.get("k") == "mcall"
+                and n.get("n") in ("push_back", "emplace_back", "insert")
+                and "keep" in ((n.get("o") or {}).get("m") or "")]
+    R.instance("R19.5", "save:keep-alive", sample={
+        "keep_alive_pushes": len(any_push),
+        "unconditional": bool(top_push)})
+    if not top_push:
+        R.violation(
+            "R19.5", "save:keep-alive", prog.loc(sf, any_push[0].get("l")
+                                                  if any_push else None),
+            "save_rcp_basic does not keep every first-seen object alive "
+            "for the lifetime of the archive (%s): a temporary can be freed "
+            "and its address reused by another object, which is then "
+            "written as 'already seen' and restored as the wrong value"
+            % ("the keep-alive push is conditional" if any_push
+               else "no keep-alive push"))
     # loader: every decoding case registers the object under addr
     reg_missing = []
     ncase = 0
